@@ -26,7 +26,7 @@ func minimise(cd *CheckDef, sc *Scenario) *Scenario {
 		if time.Now().After(deadline) {
 			return false
 		}
-		r, _ := runOne(cd, c, 2*time.Minute)
+		r, _ := runOne(cd, c, minDur(oneTimeout(cd), 2*time.Minute))
 		if v := hasClass(r, sc.Expect.Oracle, sc.Expect.Class); v != nil {
 			c.Expect = v
 			return true
@@ -188,4 +188,11 @@ func fixAnnual(w *World) {
 			w.Cfg.AnnualM, w.Cfg.AnnualD = 1, 1
 		}
 	}
+}
+
+func minDur(a, b time.Duration) time.Duration {
+	if a < b {
+		return a
+	}
+	return b
 }
